@@ -28,7 +28,13 @@ impl Style {
         Style { rng, ws_text_only: false }
     }
     fn long_text(&mut self) -> String {
-        let n = self.rng.range(20, 150);
+        // now and then far beyond any plausible fixed-size buffer (256, 1024, 4096 bytes)
+        let n = match self.rng.below(8) {
+            0 => self.rng.range(200, 600),
+            1 => self.rng.range(900, 1400),
+            2 => self.rng.range(4000, 4400),
+            _ => self.rng.range(20, 150),
+        };
         let alphabet = ['a', 'b', ' ', 'é', 'Ж', 'ß', 'x', '1', '\n', 'ü', '.', 'ö'];
         (0..n).map(|_| *self.rng.pick(&alphabet)).collect()
     }
